@@ -613,3 +613,35 @@ Definition check_precision (dim : nat) (g : gdesc) (observed : list (list Q)) : 
   | Some P => qcll_close tol8 (qmat observed) P
   | None => false
   end.
+
+(* ------------------------------------------------------------------------------------------------
+   life cycle of the refusal: the .cov getter of a Gaussian given by prec / sqrtcov / sqrtprec refuses in EVERY state except
+   "compute_cov() called since the last assignment of the defining attribute"; reads, refused calls and successful estimates
+   do not change that state
+   ------------------------------------------------------------------------------------------------ *)
+Inductive life_op := LMap | LSample | LRead | LComputeCov | LReassign.
+Inductive life_obs := LValue | LRefused | LNone.
+Definition life_obs_eqb (a b : life_obs) : bool :=
+  match a, b with LValue, LValue | LRefused, LRefused | LNone, LNone => true | _, _ => false end.
+Fixpoint life_run (computed : bool) (ops : list life_op) : list life_obs :=
+  match ops with
+  | [] => []
+  | LMap :: r | LSample :: r => (if computed then LValue else LRefused) :: life_run computed r
+  | LRead :: r => LNone :: life_run computed r
+  | LComputeCov :: r => LNone :: life_run true r
+  | LReassign :: r => LNone :: life_run false r
+  end.
+Definition mk_life_op (k : nat) : life_op :=
+  match k with 0%nat => LMap | 1%nat => LSample | 2%nat => LRead | 3%nat => LComputeCov | _ => LReassign end.
+Definition mk_life_obs (k : nat) : life_obs := match k with 0%nat => LValue | 1%nat => LRefused | _ => LNone end.
+Definition check_life (ops obs : list nat) : bool :=
+  list_eqb life_obs_eqb (life_run false (map mk_life_op ops)) (map mk_life_obs obs).
+
+(* composite targets: MAP / ML exist only for a Posterior (one likelihood, data set); every other target -- several
+   likelihoods, a joint with hyper-parameters -- is refused with ValueError, and sampling goes to the Gibbs branch *)
+Inductive target_kind := TPosterior | TMultiLik | TJoint.
+Definition entry_refused (k : target_kind) : bool := match k with TPosterior => false | _ => true end.
+Definition check_composite (kind : nat) (map_refused ml_refused sample_gibbs uq_gibbs : bool) : bool :=
+  let k := match kind with 0%nat => TPosterior | 1%nat => TMultiLik | _ => TJoint end in
+  Bool.eqb (entry_refused k) map_refused && Bool.eqb (entry_refused k) ml_refused
+  && Bool.eqb (entry_refused k) sample_gibbs && Bool.eqb (entry_refused k) uq_gibbs.
